@@ -148,7 +148,7 @@ def ob_generator(cx):
     cx.observe("shown", [lr.revno for lr in got])
 
 
-class _Rev(bytes):
+class _MainRev(bytes):
     """mainline revision number i as a revision id (symbolic i)"""
     def __new__(cls, cx, i):
         self = bytes.__new__(cls, b"rev")
@@ -156,7 +156,7 @@ class _Rev(bytes):
         return self
 
     def __eq__(self, other):
-        return isinstance(other, _Rev) and self.cx.truth(self.i == other.i)
+        return isinstance(other, _MainRev) and self.cx.truth(self.i == other.i)
 
     def __ne__(self, other):
         return not self.__eq__(other)
@@ -188,7 +188,7 @@ def ob_linear_view(cx):
         def iter_lefthand_ancestry(rev, stop=None):
             i = rev.i
             while T(i >= 1):
-                yield _Rev(cx, i)
+                yield _MainRev(cx,i)
                 i = i - 1
 
     class Branch:
@@ -200,17 +200,17 @@ def ob_linear_view(cx):
 
         @staticmethod
         def last_revision_info():
-            return n, _Rev(cx, n)
+            return n, _MainRev(cx,n)
 
         @staticmethod
         def last_revision():
-            return _Rev(cx, n)
+            return _MainRev(cx,n)
 
         @staticmethod
         def revision_id_to_dotted_revno(rev):
             return (rev.i,)
-    start = _Rev(cx, a) if a is not None else None
-    end = _Rev(cx, b) if b is not None else None
+    start = _MainRev(cx,a) if a is not None else None
+    end = _MainRev(cx,b) if b is not None else None
     top = b if b is not None else n
     raised = False
     got = []
